@@ -457,17 +457,28 @@ def read_scalar(text, v3=True):
 class Writer(object):
     """rng=None => one fixed canonical spelling; otherwise every token picks among the legal spellings."""
 
-    def __init__(self, rng=None, allow_raw_nonascii=True):
+    def __init__(self, rng=None, allow_raw_nonascii=True, script=None, policy=None):
+        self.policy = policy      # {dimension: option}: uniform spelling (used while minimising)
         self.r = rng
         self.log = Counter()
         self.raw_nonascii = allow_raw_nonascii
         self.nl = '\n'
+        self.script = script      # forced choice indices (replay / choice minimisation)
+        self.trace = []           # (dimension, index, option) per pick, in order
 
     def pick(self, dim, options):
-        if self.r is None:
-            o = options[0]
+        pos = len(self.trace)
+        if self.policy is not None:
+            want = self.policy.get(dim)
+            i = options.index(want) if want in options else 0
+        elif self.script is not None and pos < len(self.script):
+            i = self.script[pos] % len(options)
+        elif self.r is None:
+            i = 0
         else:
-            o = self.r.choice(options)
+            i = self.r.randrange(len(options))
+        o = options[i]
+        self.trace.append((dim, i, o))
         self.log['%s=%s' % (dim, o)] += 1
         return o
 
@@ -745,7 +756,7 @@ class Writer(object):
                     if len(names) == 1:
                         cells.append('N')
                     else:
-                        w = self.pick('null-cell', ['empty', 'N'])
+                        w = self.pick('null-cell', ['N', 'empty'])
                         cells.append('' if w == 'empty' else 'N')
                 else:
                     cells.append(self.val(v))
